@@ -551,6 +551,14 @@ func (x *Exec) step(st *State, fr *Frame, in ssa.Instruction) {
 			fr.Regs[v] = &PtrVal{Obj: reg, Nil: TFalse, ArrT: at}
 			return
 		}
+		if at, ok := under(v.Type().(*types.Pointer).Elem()).(*types.Array); ok && isByte(at.Elem()) && !x.arr {
+			// local octet array: a byte-sequence region, so that slices of it (tmp[:]) are views of the array itself
+			reg := newObj(ObjRegion, at.Elem(), v.Comment, true)
+			st.Heap[reg] = &RegionVal{Bytes: Zeros(IntLit(at.Len()))}
+			x.countAlloc(st, at)
+			fr.Regs[v] = &PtrVal{Obj: reg, Nil: TFalse, ArrT: at}
+			return
+		}
 		o := newObj(ObjCell, v.Type().(*types.Pointer).Elem(), v.Comment, true)
 		if o.Name == "" {
 			o.Name = v.Name()
@@ -650,6 +658,9 @@ func (x *Exec) load(st *State, p *PtrVal, t types.Type) Value {
 	}
 	if p.Obj.Kind == ObjRegion && p.ArrT != nil && p.Idx == nil {
 		rv := x.region(st, p.Obj)
+		if rv.Bytes != nil {
+			return &ArrVal{Typ: p.ArrT, Bytes: rv.Bytes}
+		}
 		av := &ArrVal{Typ: p.ArrT}
 		for i := int64(0); i < p.ArrT.Len(); i++ {
 			av.Elems = append(av.Elems, x.fromElem(st, Select(rv.Arr, IntLit(i)), p.ArrT.Elem()))
@@ -814,6 +825,13 @@ func (x *Exec) store(st *State, in ssa.Instruction, p *PtrVal, v Value) {
 	if p.Obj.Kind == ObjRegion && p.ArrT != nil && p.Idx == nil {
 		rv := x.region(st, p.Obj)
 		av := v.(*ArrVal)
+		if rv.Bytes != nil {
+			if av.Bytes == nil {
+				panic(unsupported("element-wise value stored into an octet array"))
+			}
+			st.Heap[p.Obj] = &RegionVal{Bytes: av.Bytes}
+			return
+		}
 		a := rv.Arr
 		for i, el := range av.Elems {
 			a = Store(a, IntLit(int64(i)), x.toElem(st, el, p.ArrT.Elem()))
@@ -827,6 +845,9 @@ func (x *Exec) store(st *State, in ssa.Instruction, p *PtrVal, v Value) {
 			b := v.(*Term)
 			if b.S.IsBV() {
 				b = BV2Int(b)
+			}
+			if rv.Bytes.Op == "app" && rv.Bytes.Name == "zeros" && b.Op == "int" && b.Num.Sign() == 0 {
+				return // storing 0 into a zero block changes nothing
 			}
 			nb := CatN(Take(rv.Bytes, p.Idx), U8(b), Drop(rv.Bytes, Add(p.Idx, IntLit(1))))
 			st.Heap[p.Obj] = &RegionVal{Bytes: nb}
@@ -1112,6 +1133,21 @@ func (x *Exec) binop(st *State, in ssa.Instruction, o token.Token, a, b Value, x
 			}
 		}
 	}
+	// a | b where a is a non-negative multiple of 2^k (a sum of shifted fields) and 0 <= b < 2^k: disjoint bits, a sum
+	if o == token.OR {
+		for _, pr := range [][2]*Term{{at, bt}, {bt, at}} {
+			hi, lo := pr[0], pr[1]
+			k := pow2Multiple(hi)
+			if k == 0 {
+				continue
+			}
+			if l, h, known := x.bounds(lo); known && l.Sign() >= 0 && h.Cmp(new(big.Int).Lsh(big.NewInt(1), uint(k))) < 0 {
+				if l2, _, known2 := x.bounds(hi); known2 && l2.Sign() >= 0 {
+					return x.wrap(bigEndianRead(Add(hi, lo)), rt)
+				}
+			}
+		}
+	}
 	// single-bit masks: x | 2^k, x & 2^k, x &^ 2^k on non-negative values
 	if o == token.OR || o == token.AND || o == token.AND_NOT {
 		a1, b1 := at, bt
@@ -1143,6 +1179,77 @@ func (x *Exec) posOf(in ssa.Instruction) string {
 		return "?"
 	}
 	return x.W.pos(in.Pos())
+}
+
+// bigEndianRead: at(s,i)*2^(8(n-1)) + ... + at(s,i+n-1) for n = 2, 4, 8 consecutive octets of one sequence is what
+// binary.BigEndian.Uint16/32/64 computes (that is its source text); written by hand it is given the same normal form,
+// hdN(drop(s, i)), so that contracts stated over the one form apply to the other. Anything else is returned unchanged.
+func bigEndianRead(sum *Term) *Term {
+	if sum.Op != "+" {
+		return sum
+	}
+	n := len(sum.Args)
+	if n != 2 && n != 4 && n != 8 {
+		return sum
+	}
+	parts := make([]*Term, n) // parts[j]: the at() term with coefficient 2^(8j)
+	for _, a := range sum.Args {
+		coef, t := big.NewInt(1), a
+		if a.Op == "*" && len(a.Args) == 2 && a.Args[0].Op == "int" {
+			coef, t = a.Args[0].Num, a.Args[1]
+		}
+		if !(t.Op == "app" && t.Name == "at") {
+			return sum
+		}
+		if coef.Sign() <= 0 || new(big.Int).And(coef, new(big.Int).Sub(coef, big.NewInt(1))).Sign() != 0 {
+			return sum
+		}
+		sh := coef.BitLen() - 1
+		if sh%8 != 0 || sh/8 >= n || parts[sh/8] != nil {
+			return sum
+		}
+		parts[sh/8] = t
+	}
+	first := parts[n-1] // most significant octet: lowest index
+	for j := 0; j < n; j++ {
+		p := parts[n-1-j]
+		if p == nil || p.Args[0] != first.Args[0] || p.Args[1] != Add(first.Args[1], IntLit(int64(j))) {
+			return sum
+		}
+	}
+	return App(fmt.Sprintf("hd%d", 8*n), SInt, Drop(first.Args[0], first.Args[1]))
+}
+
+// pow2Multiple: the largest k (capped at 63) such that t is, syntactically, a multiple of 2^k.
+func pow2Multiple(t *Term) int {
+	switch t.Op {
+	case "int":
+		if t.Num.Sign() == 0 {
+			return 63
+		}
+		if k := int(t.Num.TrailingZeroBits()); k < 63 {
+			return k
+		}
+		return 63
+	case "*":
+		k := 0
+		for _, a := range t.Args {
+			k += pow2Multiple(a)
+		}
+		if k > 63 {
+			k = 63
+		}
+		return k
+	case "+":
+		k := 63
+		for _, a := range t.Args {
+			if m := pow2Multiple(a); m < k {
+				k = m
+			}
+		}
+		return k
+	}
+	return 0
 }
 
 // blockMask recognises 2^a - 2^b (a > b >= 0).
@@ -1488,7 +1595,11 @@ func (x *Exec) convert(st *State, in ssa.Instruction, v Value, from, to types.Ty
 		switch {
 		case fromBV && !toBV:
 			if fs {
-				panic(unsupported("signed bit-vector to int conversion"))
+				// two's complement: the unsigned reading minus 2^bits when the sign bit is set
+				u := BV2Int(t)
+				half := new(big.Int).Lsh(big.NewInt(1), uint(fb-1))
+				full := new(big.Int).Lsh(big.NewInt(1), uint(fb))
+				return Ite(Ge(u, IntBig(half)), Sub(u, IntBig(full)), u)
 			}
 			return BV2Int(t)
 		case !fromBV && toBV:
